@@ -868,8 +868,13 @@ fn parse_primary(s: &str) -> Result<ArithExpr, String> {
         return Ok(ArithExpr::Constant(num));
     }
 
-    // Try to parse as float constant
+    // Try to parse as float constant. `inf`, `NaN`, `infinity` and overflowing literals are rejected:
+    // like `parse_term`, arithmetic only has finite constants (a non-finite one cannot be stored in
+    // the rule catalog - JSON has no representation for it).
     if let Ok(num) = s.parse::<f64>() {
+        if !num.is_finite() {
+            return Err(format!("Non-finite float constant '{s}' is not allowed"));
+        }
         return Ok(ArithExpr::from_float(num));
     }
 
@@ -879,6 +884,9 @@ fn parse_primary(s: &str) -> Result<ArithExpr, String> {
             return Ok(ArithExpr::Constant(-num));
         }
         if let Ok(num) = s[1..].trim().parse::<f64>() {
+            if !num.is_finite() {
+                return Err(format!("Non-finite float constant '{s}' is not allowed"));
+            }
             return Ok(ArithExpr::from_float(-num));
         }
     }
